@@ -220,7 +220,11 @@ def export_all(sd_base, wd, tier, timeout):
         shutil.copytree(sd_base, sd)
         os.makedirs(os.path.join(sd, "out"))
         write_cfgs(os.path.join(sd, "DuoCfgs.tla"), shards[i])
-        res = vp.tlc("DuoMC", "DuoMC.cfg", sd, workers=1, timeout=timeout, heap="5g", quiet=True, extra=["-continue"])
+        res = vp.tlc("DuoMC", "DuoMC.cfg", sd, workers=1, timeout=timeout, heap="5g", quiet=True)
+        vf = os.path.join(sd, "out", "violated.json")
+        if not os.path.exists(vf):
+            raise vp.Fatal("DuoMC did not finish (no out/violated.json):\n" + res["out"][-2000:])
+        res["violated"] = sorted(set(res["violated"]) | set(json.load(open(vf))["violated"]))
         scheds = []
         for p in sorted(glob.glob(os.path.join(sd, "out", "s_*.json")), key=lambda q: int(q.split("_")[-1].split(".")[0])):
             scheds.append(json.load(open(p)))
